@@ -11,7 +11,9 @@ through the real code; TraceVectorField.tla re-derives the expectation of every 
 (exactly, or as a cyclotomic Real term) and the harness compares.
 
 Python here only renders inputs (arrays, snapshot objects, neighbour files), calls the API,
-evaluates Real terms and compares.
+evaluates Real terms and compares.  Rendering classes: the same abstract field is handed over as a plain
+float64, read-only, strided, integer-dtype or Fortran-order array (render / variant_of); neighbour
+files are written with the rows in the order the specification states (VectorField!NlRows).
 """
 import concurrent.futures as cf
 import json
@@ -543,7 +545,9 @@ def run(tier, replay=None):
                 "vibrability sum rule, L parallel q, T orthogonal q, L+T=F, S=S_L+S_T, correlation split) on every input of "
                 "the five MC_VectorField sub-models and prints exact expectations; every case is replayed into the seven "
                 "public functions. B: seeded random larger inputs through the real code, expectation per record from "
-                "TraceVectorField.tla. distinct = distinct inputs whose observable was compared.")
+                "TraceVectorField.tla. Frequency entries of either sign (invariant omega -> -omega), neighbour files with rows "
+                "in any order, input arrays as float64 / read-only / strided / integer / Fortran-order. "
+                "distinct = distinct inputs whose observable was compared.")
     chk.assumptions = ["float comparison at 1e-9 (2e-6 where the code rounds to 1e-8 and derives further values from the rounded ones)",
                        "phase quotient / normalised correlation with a zero denominator (0/0) are outside the asserted scope",
                        "particles with an empty neighbour list are outside the scope (mean over nothing)",
